@@ -1,3 +1,4 @@
 import OAuth2Model.Model.Form
 import OAuth2Model.Model.Base64
 import OAuth2Model.Model.Request
+import OAuth2Model.Model.Adapter
